@@ -367,6 +367,23 @@ def _local_getters(prog: Program, run: Run) -> None:
                     x.value.id == root and not (x.attr.endswith("_raw") or
                                                 x.attr.startswith("_get_local_")):
                 bad.append(x)
+        # a raw-layer field that still holds unresolved references (a Union with OdxLinkRef,
+        # e.g. DIAG-COMMS = inline objects + DIAG-COMM-REFs) is not the list of local objects:
+        # whatever the layer names by reference would be dropped, for it and for its children
+        mixed = {n for n, a, _c in prog.all_fields(prog.cls("DiagLayerRaw"))
+                 if a is not None and "OdxLinkRef" in ast.unparse(a) and "Union" in ast.unparse(a)}
+        unresolved = [x for x in ast.walk(node) if isinstance(x, ast.Attribute) and
+                      x.attr in mixed and isinstance(x.value, ast.Attribute) and
+                      x.value.attr == "diag_layer_raw"]
+        if unresolved and not any(isinstance(x, ast.Call) and call_name(x) in (
+                "resolve", "resolve_lenient") for x in ast.walk(node)):
+            run.violation(R, qual, f"reads-unresolved-{unresolved[0].attr}",
+                          f"`{ast.unparse(unresolved[0])}` mixes inline objects with unresolved "
+                          "references; the objects a layer includes by reference (DIAG-COMM-REF) "
+                          "are local objects too and would neither be available in the layer "
+                          "nor inherited / overriding in its children",
+                          f"{m.module.rel}:{unresolved[0].lineno}", ast.unparse(unresolved[0]))
+            continue
         if bad:
             run.violation(R, qual, f"reads-computed-view-{bad[0].attr}",
                           f"`{ast.unparse(bad[0])}` is the layer's computed view (local + "
